@@ -129,8 +129,8 @@ class CFBinding:
             return pd.Series(decisions), pd.Series(rewards)
         if self.dtype in ("uint8", "int16"):
             return np.asarray(decisions), np.asarray(rewards, dtype=self.dtype)      # narrow integer rewards: sums must not wrap
-        if self.dtype == "bool":
-            return np.asarray(decisions), np.asarray(rewards, dtype=bool)
+        if self.dtype == "bool" and all(r in (0, 1) for r in rewards):
+            return np.asarray(decisions), np.asarray(rewards, dtype=bool)        # a bool array can only carry 0 / 1
         return np.asarray(decisions), np.asarray(rewards)
 
     def contexts(self, m):
